@@ -24,6 +24,10 @@ import numpy as np
 
 import vlib
 
+# progress bars requested through the documented `progress` argument are not drawn (display only: tqdm still
+# iterates its argument in order; read by tqdm when it is first imported)
+os.environ.setdefault("TQDM_DISABLE", "1")
+
 TRUSTED = [
     "Coq 8.16.1 kernel + vm_compute (no native_compute)",
     "harness/gen_glue.py (Python-ast reader of refine_droplets / from_storage: executor.map vs as_completed, "
@@ -336,9 +340,19 @@ def gen_storage_case(rng: random.Random, k: int):
         frames.append(s)
     opts = rng.choice([{}, {"refine": True}, {"minimal_radius": 1.0, "threshold": "extrema"},
                        {"refine": True, "modes": 1, "refine_args": {"vmin": None, "vmax": None}}])
-    np_, pattern = [(2, "reversed"), (3, "interleaved"), ("auto", "reversed"), (2, "first_slow")][k % 4]
-    return {"call": "from_storage", "frames": frames, "times": [0.5 * i for i in range(n)], "options": opts,
-            "num_processes": np_, "delays": pattern}
+    np_, pattern = [(2, "first_slow"), (3, "reversed"), ("auto", "first_slow"), (1, "none"), (3, "interleaved")][k % 5]
+    # the documented `progress` argument: None (default), False, True -- every value with every process count
+    return {"call": "from_storage", "frames": frames, "times": [0.5 * i + 0.25 for i in range(n)], "options": opts,
+            "num_processes": np_, "delays": pattern, "progress": [True, None, False][k % 3]}
+
+
+def gen_tracklist_case(rng: random.Random, k: int):
+    case = gen_storage_case(rng, k)
+    case["call"] = "tracklist_from_storage"
+    case["options"] = {"refine": rng.random() < 0.5, "method": rng.choice(["overlap", "distance"])}
+    case["num_processes"], case["delays"] = [(2, "first_slow"), ("auto", "reversed"), (3, "first_slow")][k % 3]
+    case["progress"] = [True, None, False, True][k % 4]
+    return case
 
 
 def run_storage_case(case, log=None, unit=0.12):
@@ -352,13 +366,14 @@ def run_storage_case(case, log=None, unit=0.12):
     delays, sigma = delay_pattern(case["delays"], len(keys), unit)
     with warnings.catch_warnings():
         warnings.simplefilter("ignore")
+        progress = case.get("progress", False)
         ser1 = canon_tc(EmulsionTimeCourse.from_storage(storage, num_processes=1, progress=False, **case["options"]))
-        ser2 = canon_tc(EmulsionTimeCourse.from_storage(storage, num_processes=1, progress=False, **case["options"]))
+        ser2 = canon_tc(EmulsionTimeCourse.from_storage(storage, num_processes=1, progress=progress, **case["options"]))
         direct = [canon_droplets(ia.locate_droplets(f, **case["options"])) for f in storage]
         with patched(locate_keys=keys, delays=delays if distinct else None, log=log) as p:
             try:
                 par = ("ok", canon_tc(EmulsionTimeCourse.from_storage(storage, num_processes=case["num_processes"],
-                                                                      progress=False, **case["options"])))
+                                                                      progress=progress, **case["options"])))
             except Exception as e:  # noqa
                 par = ("err", type(e).__name__)
             completed = p.completion_order()
@@ -366,29 +381,75 @@ def run_storage_case(case, log=None, unit=0.12):
             "completed": completed}
 
 
+def pairs(tc):
+    """(time, emulsion) pairs: a time must stay with the frame it belongs to."""
+    return list(zip(tc["times"], tc["emulsions"]))
+
+
 def judge_storage_case(case, obs):
     fails = []
-    if obs["serial"] != obs["serial_again"]:
-        fails.append("run-to-run: from_storage serial run and its repetition differ")
-    if obs["serial"]["emulsions"] != obs["direct"] or obs["serial"]["times"] != case["times"]:
-        fails.append("from_storage(num_processes=1) differs from [locate_droplets(frame) for frame in storage] / storage.times")
+    cfg = f"num_processes={case['num_processes']}, progress={case.get('progress', False)}, delays: {case['delays']}"
+    if pairs(obs["serial"]) != pairs(obs["serial_again"]):
+        fails.append(f"from_storage(num_processes=1, progress=False) and from_storage(num_processes=1, "
+                     f"progress={case.get('progress', False)}) differ (run-to-run / progress dependence)")
+    if pairs(obs["serial"]) != list(zip(case["times"], obs["direct"])):
+        fails.append("from_storage(num_processes=1) differs from [(t, locate_droplets(frame)) for t, frame in storage.items()]")
     if obs["parallel"][0] != "ok":
-        fails.append(f"from_storage(num_processes={case['num_processes']}) raised {obs['parallel'][1]}")
+        fails.append(f"from_storage({cfg}) raised {obs['parallel'][1]}")
     else:
         par = obs["parallel"][1]
-        if par["times"] != obs["serial"]["times"]:
-            fails.append(f"times differ: serial {obs['serial']['times']}, parallel {par['times']}")
-        if len(par["emulsions"]) != len(obs["serial"]["emulsions"]):
-            fails.append("number of frames differs between serial and parallel")
-        for i, (a, b) in enumerate(zip(obs["serial"]["emulsions"], par["emulsions"])):
+        if len(par["times"]) != len(par["emulsions"]) or len(par["emulsions"]) != len(obs["serial"]["emulsions"]):
+            fails.append(f"from_storage({cfg}): {len(par['emulsions'])} frames, {len(par['times'])} times; serial has "
+                         f"{len(obs['serial']['emulsions'])}")
+        for i, (a, b) in enumerate(zip(pairs(obs["serial"]), pairs(par))):
             if a != b:
-                moved = b in obs["serial"]["emulsions"]
-                fails.append(f"frame {i}: from_storage(num_processes={case['num_processes']}, delays: {case['delays']}) "
-                             f"differs from the serial result"
-                             f"{' (it is the emulsion of another frame: frames reordered)' if moved else ''}: "
-                             f"{[floats(x) for x in a]} vs {[floats(x) for x in b]}")
+                moved = [j for j, e in enumerate(obs["serial"]["emulsions"]) if e == b[1]]
+                fails.append(f"frame {i}: from_storage({cfg}) pairs time {b[0]} with "
+                             f"{'the emulsion of frame ' + str(moved[0]) + ' (frames reordered, times not)' if moved and a[0] == b[0] else 'a different emulsion'}"
+                             f": serial ({a[0]}, {[floats(x) for x in a[1]]}) vs ({b[0]}, {[floats(x) for x in b[1]]})")
                 break
     return fails
+
+
+def canon_tracks(tl):
+    return [(list(map(float, tr.times)), canon_droplets(tr.droplets)) for tr in tl]
+
+
+def run_tracklist_case(case, log=None, unit=0.12):
+    from pde import MemoryStorage
+    from droplets.droplet_tracks import DropletTrackList
+    fields = [make_field(s) for s in case["frames"]]
+    storage = MemoryStorage.from_fields(case["times"], fields)
+    keys = [np.ascontiguousarray(f.data).tobytes() for f in storage]
+    distinct = len(set(keys)) == len(keys)
+    delays, sigma = delay_pattern(case["delays"], len(keys), unit)
+    o = case["options"]
+    with warnings.catch_warnings():
+        warnings.simplefilter("ignore")
+        ser = canon_tracks(DropletTrackList.from_storage(storage, method=o["method"], refine=o["refine"],
+                                                         num_processes=1, progress=False))
+        with patched(locate_keys=keys, delays=delays if distinct else None, log=log) as p:
+            try:
+                par = ("ok", canon_tracks(DropletTrackList.from_storage(
+                    storage, method=o["method"], refine=o["refine"], num_processes=case["num_processes"],
+                    progress=case["progress"])))
+            except Exception as e:  # noqa
+                par = ("err", type(e).__name__)
+            completed = p.completion_order()
+    return {"n": len(keys), "sigma": sigma, "serial": ser, "parallel": par, "completed": completed}
+
+
+def judge_tracklist_case(case, obs):
+    cfg = f"num_processes={case['num_processes']}, progress={case['progress']}, delays: {case['delays']}"
+    if obs["parallel"][0] != "ok":
+        return [f"DropletTrackList.from_storage({cfg}) raised {obs['parallel'][1]}"]
+    if obs["parallel"][1] != obs["serial"]:
+        a, b = obs["serial"], obs["parallel"][1]
+        i = next((i for i, (x, y) in enumerate(zip(a, b)) if x != y), min(len(a), len(b)))
+        return [f"DropletTrackList.from_storage({cfg}) differs from the serial result: {len(a)} vs {len(b)} tracks, "
+                f"first difference at track {i}: serial {[(a[i][0], [floats(x) for x in a[i][1]])] if i < len(a) else None} "
+                f"vs {[(b[i][0], [floats(x) for x in b[i][1]])] if i < len(b) else None}"]
+    return []
 
 
 # ---------------------------------------------------------------------------------------
@@ -466,16 +527,17 @@ Fixpoint list_eqb {A} (e : A -> A -> bool) (a b : list A) : bool :=
   end.
 Definition is_none (o : option nat) : bool := match o with None => true | Some _ => false end.
 
-(* (filtering branch?, per-task results of direct calls (None = the task returned None), num_processes, cpus,
+(* (filtering branch?, progress truthy?, per-task results of direct calls (None = the task returned None), num_processes, cpus,
     schedule, serial result, result with num_processes) -- tasks are identified with their index *)
-Definition case_t : Type := bool * list (option nat) * nproc * nat * list nat * list (option nat) * list (option nat).
+Definition case_t : Type :=
+  bool * bool * list (option nat) * nproc * nat * list nat * list (option nat) * list (option nat).
 
 Definition worker (table : list (option nat)) (i : nat) : option nat :=
   match nth_error table i with Some r => r | None => Some 999999 end.
 
 Definition agree (c : case_t) : bool :=
-  let '(filtering, table, np, ncpu, sigma, serial, parallel) := c in
-  let P := if filtering then P_refine else P_storage in
+  let '(filtering, progress, table, np, ncpu, sigma, serial, parallel) := c in
+  let P := if filtering then P_refine else P_storage progress in
   let tasks := seq 0 (length table) in
   match mapped is_none P (worker table) (worker table) (NPInt 1) ncpu sigma tasks,
         mapped is_none P (worker table) (worker table) np ncpu sigma tasks with
@@ -485,9 +547,9 @@ Definition agree (c : case_t) : bool :=
 """
 
 
-def case_literal(filtering: bool, table, np_, sigma, serial, parallel) -> str:
+def case_literal(filtering: bool, table, np_, sigma, serial, parallel, progress=False) -> str:
     o = lambda x: "None" if x is None else f"(Some {x})"  # noqa
-    return (f"(({vlib.blit(filtering)}, {vlib.listlit(table, o)}, {np_literal(np_)}, {ncpu()}, "
+    return (f"(({vlib.blit(filtering)}, {vlib.blit(bool(progress))}, {vlib.listlit(table, o)}, {np_literal(np_)}, {ncpu()}, "
             f"{vlib.listlit(sigma)}, {vlib.listlit(serial, o)}, {vlib.listlit(parallel, o)}) : case_t)")
 
 
@@ -532,6 +594,8 @@ def _check(ctx: vlib.Ctx) -> int:
         ctx.count("call", kind)
         ctx.count("num_processes", case["num_processes"])
         ctx.count("delay_pattern", case["delays"])
+        if "progress" in case:
+            ctx.count("progress x num_processes", f"{case['progress']} x {case['num_processes']}")
         ctx.count("tasks", obs["n"])
         ctx.count("completion_order_observed(timing, informative only)", order_kind(obs["completed"], obs["n"]))
         e = known_match(failure_class(case, obs, fails)) if fails else None
@@ -584,10 +648,17 @@ def _check(ctx: vlib.Ctx) -> int:
                         "completion_order_observed": obs["completed"],
                         "droplets_per_frame": [len(e) for e in obs["serial"]["emulsions"]]})
         if obs["parallel"][0] == "ok":
+            # a task result = the emulsion of a frame; the gathered lists are compared as (time, emulsion) pairs
             key = lambda e: ids(("emulsion", tuple(e)))  # noqa
-            literals.append(case_literal(False, [key(e) for e in obs["direct"]], case["num_processes"], obs["sigma"],
-                                         [key(e) for e in obs["serial"]["emulsions"]],
-                                         [key(e) for e in obs["parallel"][1]["emulsions"]]))
+            pkey = lambda tc: [ids(("pair", t, key(e))) for t, e in pairs(tc)]  # noqa
+            literals.append(case_literal(False, [ids(("pair", t, key(e))) for t, e in zip(case["times"], obs["direct"])],
+                                         case["num_processes"], obs["sigma"], pkey(obs["serial"]),
+                                         pkey(obs["parallel"][1]), progress=case["progress"]))
+    # ---- DropletTrackList.from_storage (forwards num_processes and progress)
+    for k in range(ctx.scale(6, 24)):
+        case = gen_tracklist_case(rng, k)
+        obs = run_tracklist_case(case, log)
+        record("tracklist_from_storage", case, obs, judge_tracklist_case(case, obs))
     # ---- a worker count of zero is rejected (Model: BadWorkerCount)
     import droplets.image_analysis as ia
     field = make_field(gen_field_spec(random.Random(ctx.seed + 5)))
@@ -622,6 +693,9 @@ def _check(ctx: vlib.Ctx) -> int:
             if not fails:
                 case = gen_storage_case(rng2, k)
                 fails = judge_storage_case(case, run_storage_case(case, log, unit=0.2))
+            if not fails:
+                case = gen_tracklist_case(rng2, k)
+                fails = judge_tracklist_case(case, run_tracklist_case(case, log, unit=0.2))
             if fails:
                 violations.append({"what": f"{case['call']}: {fails[0]}", "input": case, "found": True})
                 break
@@ -651,6 +725,11 @@ def replay(path: str) -> int:
         fails = judge_locate_case(case, obs)
         print("serial  :", [floats(x) for x in obs["serial"]])
         print("parallel:", obs["parallel"][0], [floats(x) for x in obs["parallel"][1]] if obs["parallel"][0] == "ok" else obs["parallel"][1])
+    elif case["call"] == "tracklist_from_storage":
+        obs = run_tracklist_case(case, unit=0.2)
+        fails = judge_tracklist_case(case, obs)
+        print("serial tracks  :", [(t, len(d)) for t, d in obs["serial"]])
+        print("parallel tracks:", [(t, len(d)) for t, d in obs["parallel"][1]] if obs["parallel"][0] == "ok" else obs["parallel"])
     else:
         obs = run_storage_case(case, unit=0.2)
         fails = judge_storage_case(case, obs)
